@@ -334,7 +334,7 @@ pub trait BlockchainRead: Read {
                 &&& old(self).rem() =~= ins_wire(v, v.len() as int) + final(self).rem()
                 &&& forall|i: int| 0 <= i < v.len() ==> input_wf(#[trigger] v[i])
             },
-//@before `for _ in 0..input_count {`
+//@before `for _ in 0..`
         let ghost o0 = self.rem();
 //@loop 1 label=iter
             invariant
@@ -342,7 +342,7 @@ pub trait BlockchainRead: Read {
                 o0 =~= ins_wire(inputs@, inputs@.len() as int) + self.rem(),
                 forall|i: int| 0 <= i < inputs@.len() ==> input_wf(#[trigger] inputs@[i]),
                 iter.snapshot.start == 0, iter.snapshot.end == input_count, iter.seq().len() == input_count,
-//@before `let outpoint = self.read_tx_outpoint()?;`
+//@before `let outpoint`
             let ghost before = self.rem();
             let ghost ins0 = inputs@;
 //@after #1 `});`
@@ -367,7 +367,7 @@ pub trait BlockchainRead: Read {
                 &&& old(self).rem() =~= outs_wire(v, v.len() as int) + final(self).rem()
                 &&& forall|i: int| 0 <= i < v.len() ==> output_wf(#[trigger] v[i])
             },
-//@before `for _ in 0..output_count {`
+//@before `for _ in 0..`
         let ghost o0 = self.rem();
 //@loop 1 label=iter
             invariant
@@ -375,7 +375,7 @@ pub trait BlockchainRead: Read {
                 o0 =~= outs_wire(outputs@, outputs@.len() as int) + self.rem(),
                 forall|i: int| 0 <= i < outputs@.len() ==> output_wf(#[trigger] outputs@[i]),
                 iter.snapshot.start == 0, iter.snapshot.end == output_count, iter.seq().len() == output_count,
-//@before `let value = self.read_u64::<LittleEndian>()?;`
+//@before `let value = self`
             let ghost before = self.rem();
             let ghost outs0 = outputs@;
 //@after #1 `});`
@@ -405,15 +405,15 @@ pub trait BlockchainRead: Read {
         let ghost mut cur: Seq<u8> = self.rem();
         let ghost mut marker: Seq<u8> = Seq::empty();
         proof { assert(o0 =~= acc + cur); }
-//@after `let version = self.read_u32::<LittleEndian>()?;`
+//@after `let version =`
         proof { lemma_acc(o0, acc, cur, le32(version), self.rem()); acc = acc + le32(version); cur = self.rem(); }
-//@after `let mut in_count = VarUint::read_from(self)?;`
+//@after `let mut in_count`
         let ghost first_count = in_count;
         proof { lemma_acc(o0, acc, cur, in_count.buf@, self.rem()); acc = acc + in_count.buf@; cur = self.rem(); }
 //@after `flags = self.read_u8()?;`
             proof { lemma_acc(o0, acc, cur, seq![flags], self.rem()); acc = acc + seq![flags]; cur = self.rem();
                     marker = first_count.buf@ + seq![flags]; }
-//@before `let inputs = self.read_tx_inputs(in_count.value)?;`
+//@before `let inputs =`
         proof {
             if first_count.value == 0 {
                 lemma_acc(o0, acc, cur, in_count.buf@, self.rem());
@@ -424,11 +424,11 @@ pub trait BlockchainRead: Read {
             acc = le32(version) + marker + in_count.buf@; cur = self.rem();
             assert(o0 == acc + cur);
         }
-//@after `let inputs = self.read_tx_inputs(in_count.value)?;`
+//@after `let inputs =`
         proof { let x = ins_wire(inputs@, inputs@.len() as int); lemma_acc(o0, acc, cur, x, self.rem()); acc = acc + x; cur = self.rem(); }
-//@after `let out_count = VarUint::read_from(self)?;`
+//@after `let out_count`
         proof { lemma_acc(o0, acc, cur, out_count.buf@, self.rem()); acc = acc + out_count.buf@; cur = self.rem(); }
-//@after `let outputs = self.read_tx_outputs(out_count.value)?;`
+//@after `let outputs =`
         proof { let x = outs_wire(outputs@, outputs@.len() as int); lemma_acc(o0, acc, cur, x, self.rem()); acc = acc + x; cur = self.rem(); }
         let ghost o_w = self.rem();
         assert(marker.len() == 0 || (marker.len() >= 2 && marker[marker.len() - 1] == flags));
@@ -452,22 +452,22 @@ pub trait BlockchainRead: Read {
                         forall|k: int| 0 <= k < ws[ws.len() - 1].items.len() ==> witem_wf(#[trigger] ws[ws.len() - 1].items[k]),
                         is_suffix(self.rem(), o_w), consumed_of(o_w, self.rem()) == wstacks_wire(ws, ws.len() as int),
                         it2.snapshot.start == 0, it2.snapshot.end == item_count.value, it2.seq().len() == item_count.value,
-//@before `let item_count = VarUint::read_from(self)?;`
+//@before `let item_count`
                 let ghost b1 = self.rem();
-//@after `let item_count = VarUint::read_from(self)?;`
+//@after `let item_count`
                 let ghost ws0 = ws;
                 proof {
                     lemma_suffix_step(o_w, b1, self.rem(), item_count.buf@);
                     lemma_wstacks_open(ws0, item_count);
                     ws = ws0.push(WStack { count: item_count, items: Seq::empty() });
                 }
-//@before `let witness_len = VarUint::read_from(self)?;`
+//@before `let witness_len`
                     let ghost b2 = self.rem();
                     let ghost ws1 = ws;
-//@after `let witness_len = VarUint::read_from(self)?;`
+//@after `let witness_len`
                     proof { lemma_suffix_step(o_w, b2, self.rem(), witness_len.buf@); }
                     let ghost b3 = self.rem();
-//@after `let _ = self.read_u8_vec(witness_len.value as u32)?;`
+//@after `let _ = self`
                     proof {
                         let data = consumed_of(b3, self.rem());
                         assert(data.len() == (witness_len.value as u32) as int);
@@ -479,7 +479,7 @@ pub trait BlockchainRead: Read {
                         assert(witem_wire(it) =~= witness_len.buf@ + data);
                         assert(consumed_of(o_w, self.rem()) =~= wstacks_wire(ws1, ws1.len() as int) + witness_len.buf@ + data);
                     }
-//@before `let locktime = self.read_u32::<LittleEndian>()?;`
+//@before `let locktime`
         let ghost wit = consumed_of(o_w, self.rem());
         proof {
             assert(flags & 1 > 0 ==> flags & 1 == 1) by(bit_vector);
@@ -492,7 +492,7 @@ pub trait BlockchainRead: Read {
             }
             lemma_acc(o0, acc, cur, wit, self.rem()); acc = acc + wit; cur = self.rem();
         }
-//@after `let locktime = self.read_u32::<LittleEndian>()?;`
+//@after `let locktime`
         proof { lemma_acc(o0, acc, cur, le32(locktime), self.rem()); acc = acc + le32(locktime); cur = self.rem(); }
 //@before `Ok(tx)`
         proof {
@@ -512,17 +512,17 @@ pub trait BlockchainRead: Read {
         ensures
             //# C12:auxpow_section_consumed_exactly
             r is Ok ==> aux_consumed(old(self).rem(), final(self).rem(), r->Ok_0),
-//@before `let coinbase_tx = self.read_tx(version_id)?;`
+//@before `let coinbase_tx`
         let ghost o0 = self.rem();
-//@after `let coinbase_tx = self.read_tx(version_id)?;`
+//@after `let coinbase_tx`
         let ghost mid = self.rem();
         let ghost (marker, wit) = choose|marker: Seq<u8>, wit: Seq<u8>| tx_consumed(o0, mid, coinbase_tx, marker, wit);
-//@before `let coinbase_branch = self.read_merkle_branch()?;`
+//@before `let coinbase_branch`
         let ghost m1 = self.rem();
-//@after `let coinbase_branch = self.read_merkle_branch()?;`
+//@after `let coinbase_branch`
         let ghost c1 = choose|c: VarUint| m1 =~= #[trigger] branch_wire(coinbase_branch, c) + self.rem();
         let ghost m2 = self.rem();
-//@after `let blockchain_branch = self.read_merkle_branch()?;`
+//@after `let blockchain_branch`
         let ghost c2 = choose|c: VarUint| m2 =~= #[trigger] branch_wire(blockchain_branch, c) + self.rem();
         let ghost m3 = self.rem();
 //@before `Ok(AuxPowExtension {`
@@ -583,11 +583,11 @@ pub trait BlockchainRead: Read {
         ensures
             //# C12:merkle_branch_consumes_count_hashes_mask
             r is Ok ==> branch_consumed(old(self).rem(), final(self).rem(), r->Ok_0),
-//@before `let branch_length = VarUint::read_from(self)?;`
+//@before `let branch_length`
         let ghost o0 = self.rem();
-//@before `let side_mask = self.read_u32::<LittleEndian>()?;`
+//@before `let side_mask`
         let ghost m2 = self.rem();
-//@before `Ok(MerkleBranch::new(hashes, side_mask))`
+//@before `Ok(MerkleBranch`
         proof {
             let mb = MerkleBranch { hashes, side_mask };
             assert(m2 =~= le32(side_mask) + self.rem());
@@ -615,7 +615,7 @@ pub trait BlockchainRead: Read {
                 //# C01:tx_count_equals_rows
                 &&& b.txs@.len() == b.tx_count.value && varuint_wf(b.tx_count)
             },
-//@after `let header = self.read_block_header()?;`
+//@after `let header =`
         proof { lemma_le_lens(); assert(hdr_wire(header).len() == 80); }
 //@end
 }
